@@ -423,7 +423,7 @@ C07_CLAUSES = {'node-kind', 'children-keys', 'missing-fields', 'extra-fields', '
 
 @check('C07')
 def c07(tier: str) -> int:
-    conv._FRESH_EVERY[0] = 4 if tier == 'quick' else 1      # how often the tree is asked for again with an emptied converter cache
+    conv._FRESH_EVERY[0] = 4 if tier == 'quick' else 2      # how often the tree is asked for again under a never-used handler set
     return _multi_grammar('C07', tier, [
         (SCALAR_CFGS, C07_CLAUSES, conv.ev_tree, {'extra_sp': 0 if tier == 'quick' else 1}),
         (CLS_CFGS, C07_CLAUSES, conv.ev_tree, {}),
